@@ -114,6 +114,7 @@ def _classes():
         def ports_schema(self):
             sch = {v: {'_default': 0, '_emit': True, '_updater': 'set', '_divider': 'set'}
                    for v in ('a', 'b', 'c', 't', 'i1', 'i2')}
+            sch['w'] = {'_default': 1, '_emit': True, '_updater': 'set', '_divider': 'set'}
             sch['x'] = {'_default': 0, '_emit': True, '_divider': 'set'}
             sch['name'] = {'_default': '', '_updater': 'set', '_divider': 'set'}
             return {'vars': sch}
@@ -126,6 +127,10 @@ def _classes():
                 ctx['log'].append({'e': 'step', 'role': role, 't': ctx['now'](), 'phase': ctx['phase'](), 'x': v['x']})
             if role == 'tally':
                 return {'vars': {'t': v['x'] * 2}}
+            if role == 'p':
+                return {'vars': {'w': v['w'] * 2}}
+            if role == 'q':
+                return {'vars': {'w': v['w'] + 1}}
             if role == 'i1':
                 return {'vars': {'i1': v['c'] * 2}}
             if role == 'i2':
@@ -219,6 +224,15 @@ def compartment(key, x0, slow=None, splitter_at=None, me='a', inner=False):
             'flow': {r: list(FLOW[r]) for r in ROLES},
             'topology': dict({p: {'vars': ('vars',)} for p in procs}, **{r: {'vars': ('vars',)} for r in ALL_ROLES}),
             'initial_state': {'vars': {'x': x0}}}
+    # two steps of one layer (no dependencies) whose updates do not commute, declared q before p: the steps of a
+    # layer are started from one state and their updates applied in path order, p then q, so w grows by 1 per phase
+    # (not doubled) through every entry point
+    comp['steps']['q'] = Chain({'key': key, 'role': 'q'})
+    comp['steps']['p'] = Chain({'key': key, 'role': 'p'})
+    comp['flow']['q'] = []
+    comp['flow']['p'] = []
+    comp['topology']['q'] = {'vars': ('vars',)}
+    comp['topology']['p'] = {'vars': ('vars',)}
     if inner:
         # a sub-dictionary of steps, declared in reverse: i2 waits for i1, i1 for `finish` one level up
         comp['steps']['inner'] = {'i2': Chain({'key': key, 'role': 'i2'}), 'i1': Chain({'key': key, 'role': 'i1'})}
@@ -245,11 +259,11 @@ def cell_composer(key, slow=None):
             return steps if config['chain'] else {'tally': steps['tally']}
 
         def generate_flow(self, config):
-            return {r: list(FLOW[r]) for r in ROLES} if config['chain'] else {}
+            return compartment(key, 0, slow)['flow'] if config['chain'] else {}
 
         def generate_topology(self, config):
             topo = compartment(key, 0, slow)['topology']
-            return topo if config['chain'] else {k: v for k, v in topo.items() if k not in ROLES}
+            return topo if config['chain'] else {k: v for k, v in topo.items() if k not in ROLES + ['p', 'q']}
     return Cell({})
 
 
@@ -409,6 +423,11 @@ def oracle(case, impl, who=('order', 'values', 'once', 'published', 'alive')):
                     fails.append(f'sees-deps: at t={row["t"]} compartment {k} holds c={v["c"]} i1={v.get("i1")} '
                                  f'i2={v.get("i2")}: the nested steps (i1 = 2 c after `finish` one level up, '
                                  f'i2 = i1 + 1) did not run in dependency order')
+                    break
+                if k in case['initial'] and 'w' in v and v['w'] != 2 + row['phase']:
+                    fails.append(f'layer-order: at t={row["t"]} compartment {k} holds w={v["w"]} after '
+                                 f'{row["phase"] + 1} phases: two steps of one layer (w := 2 w and w := w + 1) are '
+                                 f'applied in path order, which leaves w + 1 per phase ({2 + row["phase"]})')
                     break
                 if v['t'] != 2 * v['x']:
                     fails.append(f'deriver-skipped: at t={row["t"]} compartment {k} holds x={v["x"]} t={v["t"]}: its '
